@@ -109,6 +109,10 @@ func sanitizersForAttributeValue(c context) ([]string, error) {
 	}
 	urlAttrValPrefix := c.attr.value
 	if urlAttrValPrefix == "" {
+		if c.attr.dynamic {
+			// e.g. `<a href="{{ "java" }}{{ "script:alert(1)" }}">`
+			return nil, fmt.Errorf("actions must not occur directly after another action at the start of the %q URL attribute value of this %q element", c.attr.name, c.element.name)
+		}
 		// Attribute value prefixes in URL or TrustedResourceURL sanitization contexts
 		// must sanitized and normalized.
 		return reverse(appendIfNotEmpty(ret, normalizeURLFuncName, sanitizer)), nil
